@@ -218,6 +218,26 @@ func init() {
 		ex.Assert(a[0].(*Term), ex.argStr(a[1], "label"))
 		return nil
 	})
+	reg(rtPkg+"All", func(ex *Exec, a []Val) Val {
+		var ts []*Term
+		for _, v := range ex.sliceElems(a[0].(SliceV)) {
+			ts = append(ts, v.(*Term))
+		}
+		return ex.tf.And(ts...)
+	})
+	reg(rtPkg+"Any", func(ex *Exec, a []Val) Val {
+		var ts []*Term
+		for _, v := range ex.sliceElems(a[0].(SliceV)) {
+			ts = append(ts, v.(*Term))
+		}
+		return ex.tf.Or(ts...)
+	})
+	reg(rtPkg+"Ite", func(ex *Exec, a []Val) Val {
+		return BigV{T: ex.tf.Ite(a[0].(*Term), ex.bigArg(a[1], "Ite"), ex.bigArg(a[2], "Ite"))}
+	})
+	reg(rtPkg+"IteDec", func(ex *Exec, a []Val) Val {
+		return DecV{T: ex.tf.Ite(a[0].(*Term), ex.decArg(a[1], "IteDec"), ex.decArg(a[2], "IteDec"))}
+	})
 	reg(rtPkg+"Cover", func(ex *Exec, a []Val) Val { ex.res.Covers[ex.argStr(a[0], "label")] = true; return nil })
 	reg(rtPkg+"Known", func(ex *Exec, a []Val) Val { return ex.tf.Bool(ex.known[ex.argStr(a[0], "id")]) })
 	reg(rtPkg+"MapOrder", func(ex *Exec, a []Val) Val { ex.mapOrder = ex.argStr(a[0], "mode"); return nil })
